@@ -341,6 +341,8 @@ func checkC08(c *Ctx) {
 	c8UseAfterRelease(c, "R8.3", releaseFns)
 	c8SingleRelease(c)
 	c8Ownership(c)
+	c.Rule("R8.6", "encoding an entry never modifies the logger's shared encoder (what an entry looks like cannot depend on the entries logged before it)", 3)
+	c9EncoderPurity(c, "R8.6")
 }
 
 func relName(cl ssa.CallInstruction) string {
